@@ -15,7 +15,7 @@ ANCHOR_FILES = ["aw_datastore/storages/memory.py", "aw_datastore/storages/sqlite
                 "aw_transform/heartbeats.py"]
 REQUIRED_COUNTERS = ["heartbeats.memory", "heartbeats.sqlite", "heartbeats.peewee", "merges", "inserts"]
 RULE = ("heartbeat streams of 1-40 heartbeats with strictly increasing timestamps and non-decreasing end instants "
-        "(zero and positive durations, repeated/alternating data, gaps below/at/above the pulsetime, zero-length "
+        "(zero and positive durations, repeated/alternating data - equal data sometimes with its keys in another order -, gaps below/at/above the pulsetime, zero-length "
         "heartbeats whose end ties with the previous event's end) × pulsetimes {0, fractional, large}, fed through "
         "get(limit=1) -> heartbeat_merge -> replace_last | insert on each backend, in a store that also holds 1-2 "
         "other buckets (created before and after) whose events start and end at the stream's own instants, some of them "
@@ -69,7 +69,7 @@ def gen_case(rng, ctx):
         else:
             dur = max(0, end_prev - ts) + rng.randrange(0, 4) * unit + rng.choice([0, 0, 1, 999])
         dur = max(dur, 0)
-        stream.append(dict(ts=ts, dur=dur, data=data))
+        stream.append(dict(ts=ts, dur=dur, data=dict(reversed(list(data.items()))) if len(data) > 1 and rng.random() < 0.3 else data))
         end_prev = max(end_prev, ts + dur)
         r = rng.random()
         if r < 0.25:
